@@ -16,6 +16,31 @@ fn s(h: &str) -> Option<String> { String::from_utf8(unhex(h)).ok() }
 pub fn dispatch(f: &[&str]) -> String {
     match f[0] {
         "c19.ctype" => match s(f[1]) { Some(x) => match header::ContentType::parse(&x) { Ok(c) => format!("ok\t{}", hex(format!("{c:?}").as_bytes()).len()), Err(_) => "err".into() }, None => "invalid-utf8".into() },
+        "c19.typed_parse" => {
+            // Header::parse and Headers::get of every typed header on caller / wire text: f[1] kind, f[2] text
+            let Some(x) = s(f[2]) else { return "invalid-utf8".into() };
+            fn both<T: Header + std::fmt::Debug>(x: &str) -> String {
+                let a = T::parse(x).is_ok();
+                let mut h = header::Headers::new();
+                h.insert_raw(header::HeaderValue::new(T::name(), x.to_string()));
+                let b = h.get::<T>().is_some();
+                let _ = format!("{:?}", h.get::<T>());
+                let c = h.remove::<T>().is_some();
+                format!("ok\t{}{}{}", a as u8, b as u8, c as u8)
+            }
+            match f[1] {
+                "cdisp" => both::<header::ContentDisposition>(&x),
+                "cte" => both::<header::ContentTransferEncoding>(&x),
+                "mimeversion" => both::<header::MimeVersion>(&x),
+                "ctype" => both::<header::ContentType>(&x),
+                "date" => both::<header::Date>(&x),
+                "from" => both::<header::From>(&x),
+                "sender" => both::<header::Sender>(&x),
+                "to" => both::<header::To>(&x),
+                "subject" => both::<header::Subject>(&x),
+                _ => "bad-kind".into(),
+            }
+        }
         "c19.date_parse" => match s(f[1]) { Some(x) => match header::Date::parse(&x) { Ok(d) => format!("ok\t{}", hex(format!("{:?}", d.display()).as_bytes())), Err(_) => "err".into() }, None => "invalid-utf8".into() },
         "c19.date_from" => {
             // seconds relative to the epoch (may be negative or beyond year 9999)
